@@ -119,6 +119,18 @@ func (x *R) add(key string, st Status, pos token.Pos, detail string) {
 	x.rep.Obls = append(x.rep.Obls, Obligation{Rule: x.info.ID, Key: x.info.ID + ":" + key, Status: st, Pos: ps, Detail: detail})
 }
 
+// CheckAt is Check for a position of another program (the tree as written): the position is given already rendered.
+func (x *R) CheckAt(key, at string, ok bool, okDetail, failDetail string) bool {
+	x.info.Instances++
+	st, detail := Discharged, okDetail
+	if !ok {
+		st, detail = Violated, failDetail
+		x.info.Violated++
+	}
+	x.rep.Obls = append(x.rep.Obls, Obligation{Rule: x.info.ID, Key: x.info.ID + ":" + key, Status: st, Pos: at, Detail: detail})
+	return ok
+}
+
 // OK records a discharged obligation.
 func (x *R) OK(key string, pos token.Pos, detail string) { x.add(key, Discharged, pos, detail) }
 
